@@ -10,6 +10,9 @@ CHECKS = {
  "C01": dict(tech="TLA+ L1 language machine (Prql.tla): TLC bounded-exhaustive program generation (PrqlMC) replayed through prqlc+SQLite, executions trace-validated by TLC (PrqlTrace)",
     text="bounded-exhaustive model checking of the language machine (all pipelines up to the depth over the step alphabet x all database instances) with every behaviour replayed through the real compiler and every recorded execution validated against the specification's set of admissible results; seeded random programs extend beyond the bound",
     ref="DESIGN.md section 4 C01"),
+ "C02": dict(tech="TLA+ operator table + minimal/full renderers + precedence-climbing parser (Expr.tla), self-consistency model-checked on the tree-growing machine (ExprMC); renderings replayed through the real parser (ExprTrace) and through prqlc+SQLite with values validated by Eval of Prql.tla (PrqlTrace)",
+    text="every (parent operator, child operator, side) adjacency over the binary and unary operators with column, literal and null leaves (TLC checks Parse(Show(t)) = t on the model); for each tree both renderings must parse to that tree in prqlc, and the emitted SQL must evaluate to the tree's value on a value domain with NULL, negatives, zero, ints and rationals; random case / in-range / nested expressions extend beyond the bound",
+    ref="DESIGN.md section 4 C02"),
  "C03": dict(tech="TLA+ L1 language machine: possible-worlds order semantics (ties, NULL placement) in Prql.tla; sort/take-biased PrqlMC generation; row SEQUENCES validated by TLC (PrqlTrace)",
     text="as C01, with the observation compared as a sequence: the returned order must be a linearisation the sort in effect admits (tie groups matched as bags), take must keep exactly the positions of some admissible linearisation",
     ref="DESIGN.md section 4 C03"),
